@@ -15,6 +15,7 @@ import (
 	"runtime"
 	"strconv"
 	"testing"
+	"time"
 
 	"pgregory.net/rapid"
 
@@ -504,6 +505,138 @@ func TestVerifC10Obfs4Frames(t *testing.T) {
 		role := map[bool]string{true: "obfs4-client-frames", false: "obfs4-server-frames"}[realIsClient]
 		c.Case(ev.Hash(role, fmt.Sprint(frames), fmt.Sprint(chunks), readBuf, end), nt, []string{role}, func() any {
 			return map[string]any{"stage": role, "frames": fmt.Sprint(frames), "chunks": chunks, "read_buf": readBuf, "end": end}
+		})
+	})
+}
+
+// TestVerifC10Obfs4FramesWhileWriting: what the peer sends is processed by the
+// reader goroutine while the application's writer goroutine is inside Write
+// (the relay runs both at once).  Peer-driven state changes - above all PRNG
+// seed packets, which replace the distributions Write samples - must not make
+// the concurrent Write panic or wedge.  Free-running, also under -race.
+func TestVerifC10Obfs4FramesWhileWriting(t *testing.T) {
+	vfSetup(t)
+	c := ev.For("C10")
+	c.Rule("obfs4-frames-while-writing: an established real client or server (iat-mode 0/1/2); a writer goroutine performs 10-60 Writes of 0-3000 bytes back to back while the reference peer, holding the session keys, sends 20-200 authenticated frames in generated segments without waiting: payload, padding, unknown types, and PRNG-seed packets with generated seeds (incl. seeds of one-entry and very small tables) - a flood of them in half of the cases; oracle: no panic in either goroutine, every Write returns without error, Read reports no error (the frames are valid), both goroutines finish / park (wedge only after 60 s), delivered payload equals what the peer sent; non-trivial = >= 5 seed packets were processed by a client while Writes were in progress; fingerprint = role, mode, sizes, frames, randomness key")
+	c.Floor("fww-seed-flood-at-client/fww", 0.15)
+	rapid.Check(t, func(rt *rapid.T) {
+		rk := rapid.Uint64().Draw(rt, "randKey")
+		defer vfRandSeedKey(rk)()
+		var br vfBridge
+		br.ID = refobfs4.NewIdentity(detrand.Bytes(rapid.Uint64().Draw(rt, "identity"), 52))
+		br.Biased = rapid.Bool().Draw(rt, "biased")
+		br.IAT = rapid.SampledFrom([]int{0, 0, 0, 1, 2}).Draw(rt, "iat")
+		br.Seed = detrand.Bytes(rapid.Uint64().Draw(rt, "seed"), 24)
+		realIsClient := rapid.IntRange(0, 3).Draw(rt, "realIsClient") > 0
+		s, err := vfRefSessionOpt(br, vfEnt(rapid.Uint64().Draw(rt, "refEntropy")), realIsClient, false, false)
+		if s != nil && s.N != nil {
+			defer s.N.Shutdown()
+		}
+		if err != nil {
+			rt.Fatalf("INFRA: session: %v", err)
+		}
+		nw := rapid.IntRange(10, 60).Draw(rt, "writes")
+		if br.IAT != 0 {
+			nw = rapid.IntRange(4, 10).Draw(rt, "writesIAT")
+		}
+		sizes := make([]int, nw)
+		for i := range sizes {
+			sizes[i] = rapid.SampledFrom([]int{0, 1, 50, 700, 1427, 1428, 3000}).Draw(rt, "size")
+			if br.IAT != 0 && sizes[i] > 1428 {
+				sizes[i] = 700
+			}
+		}
+		flood := rapid.Bool().Draw(rt, "seedFlood")
+		nf := rapid.IntRange(20, 200).Draw(rt, "frames")
+		var stream, want []byte
+		seedPkts := 0
+		dir := byte(1)
+		if !realIsClient {
+			dir = 0
+		}
+		for i := 0; i < nf; i++ {
+			k := rapid.IntRange(0, 9).Draw(rt, "frameKind")
+			if flood && k >= 3 {
+				k = 9
+			}
+			switch {
+			case k < 4:
+				pl := vfCounterStream(dir, len(want), rapid.IntRange(0, 300).Draw(rt, "payload"))
+				want = append(want, pl...)
+				stream = append(stream, s.Enc.Frame(refobfs4.PktPayload, pl, rapid.IntRange(0, 40).Draw(rt, "pad"))...)
+			case k < 6:
+				stream = append(stream, s.Enc.Frame(refobfs4.PktPayload, nil, rapid.IntRange(0, 1427).Draw(rt, "padOnly"))...)
+			case k < 7:
+				stream = append(stream, s.Enc.Frame(byte(rapid.IntRange(2, 255).Draw(rt, "unknownType")), detrand.Bytes(uint64(i), rapid.IntRange(0, 64).Draw(rt, "unknownLen")), 0)...)
+			default:
+				var sd []byte
+				switch rapid.IntRange(0, 3).Draw(rt, "seedKind") {
+				case 0:
+					sd = vfSpecialSeed("single", rapid.IntRange(0, 7).Draw(rt, "singleIdx"), br.Biased)
+				case 1:
+					sd = vfSpecialSeed("small", rapid.IntRange(0, 7).Draw(rt, "smallIdx"), br.Biased)
+				default:
+					sd = detrand.Bytes(rapid.Uint64().Draw(rt, "peerSeed"), 24)
+				}
+				stream = append(stream, s.Enc.Frame(refobfs4.PktSeed, sd, 0)...)
+				seedPkts++
+			}
+		}
+		var werr string
+		wdone := make(chan struct{})
+		go func() {
+			defer close(wdone)
+			off := 0
+			for _, n := range sizes {
+				res, wn, _ := s.Ep.Write(vfCounterStream(1-dir, off, n))
+				if res.Failed() {
+					werr = fmt.Sprintf("VIOL[c10-obfs4-panic]: Write(%d bytes) while the peer's frames were being processed: %s", n, res)
+					return
+				}
+				if res.Err != nil || wn != n {
+					werr = fmt.Sprintf("VIOL[c10-obfs4-write-error]: Write(%d) = %d, %v on a healthy connection", n, wn, res.Err)
+					return
+				}
+				off += n
+			}
+		}()
+		// the peer's frames, in generated segments, without waiting for anything
+		for len(stream) > 0 {
+			k := rapid.IntRange(1, 3000).Draw(rt, "segment")
+			if k > len(stream) {
+				k = len(stream)
+			}
+			s.N.Inject(s.RefSide, stream[:k])
+			s.N.ReleaseAll(s.RefSide)
+			stream = stream[k:]
+		}
+		select {
+		case <-wdone:
+		case <-time.After(60 * time.Second):
+			rt.Fatalf("VIOL[c10-obfs4-wedge]: the writer has not finished %d Writes within 60 s while the peer's frames were processed\n%s", nw, wire.Stacks())
+		}
+		if err := s.N.WaitQuiescentFor(60*time.Second, s.RealSide); err != nil {
+			rt.Fatalf("VIOL[c10-obfs4-wedge]: %v", err)
+		}
+		if werr != "" {
+			rt.Fatalf("%s (role client=%v, iat %d, %d seed packets)", werr, realIsClient, br.IAT, seedPkts)
+		}
+		if pv, stk := s.Ep.Panic(); pv != nil {
+			rt.Fatalf("VIOL[c10-obfs4-panic]: reader panicked: %v\n%s", pv, stk)
+		}
+		if rerr := s.Ep.ReadErr(); rerr != nil {
+			rt.Fatalf("VIOL[c10-obfs4-read-error]: Read failed on authenticated, well-formed frames: %v", rerr)
+		}
+		if !bytes.Equal(s.Ep.Got(), want) {
+			rt.Fatalf("VIOL[c10-obfs4-bogus-data]: delivered %d bytes, the peer sent %d bytes of payload", s.Ep.GotLen(), len(want))
+		}
+		cls := []string{"fww"}
+		nt := realIsClient && seedPkts >= 5
+		if nt {
+			cls = append(cls, "fww-seed-flood-at-client")
+		}
+		c.Case(ev.Hash("fww", rk, realIsClient, br.IAT, fmt.Sprint(sizes), nf, seedPkts), nt, cls, func() any {
+			return map[string]any{"unit": "obfs4-frames-while-writing", "real_is_client": realIsClient, "iat": br.IAT, "writes": nw, "frames": nf, "seed_packets": seedPkts}
 		})
 	})
 }
